@@ -37,6 +37,7 @@ type Report struct {
 	Calls     map[string]int `json:"calls"`
 	Taken     int            `json:"taken"`    // produced chunks the consumer took
 	Putbacks  int            `json:"putbacks"` // chunks put back
+	StackLeft int            `json:"stack_left"` // put-back chunks the consumer had not re-read when it stopped
 	Rets      []string       `json:"rets,omitempty"`
 	Rest      []byte         `json:"rest,omitempty"` // what a final DequeueAll returned (Record mode)
 	RestWant  []byte         `json:"rest_want,omitempty"`
@@ -58,19 +59,39 @@ func (r *rng) intn(n int) int { return int(r.u64() % uint64(n)) }
 // ('P' produced, 'R' put back by the consumer), numbered, then seed-dependent filler.
 func Chunk(seed uint64, i int, tag byte) []byte {
 	h := rng{s: seed ^ (uint64(i)+1)*0xD1B54A32D192ED03 ^ uint64(tag)<<56}
-	n := 6 + int(h.u64()%21)
+	// sizes: mostly a few bytes up to a few dozen, some single bytes, a few KiB-sized and an
+	// occasional chunk larger than a transport read (64 KiB+)
+	var n int
+	switch k := h.u64() % 1000; {
+	case k < 150:
+		n = 1
+	case k < 250:
+		n = 2 + int(h.u64()%4)
+	case k < 955:
+		n = 6 + int(h.u64()%21)
+	case k < 997:
+		n = 200 + int(h.u64()%1800)
+	default:
+		n = 65536 + int(h.u64()%4096)
+	}
 	b := make([]byte, n)
-	b[0] = byte(n)
-	b[1] = tag
-	b[2], b[3], b[4], b[5] = byte(i>>24), byte(i>>16), byte(i>>8), byte(i)
-	for k := 6; k < n; k++ {
-		b[k] = byte(h.u64())
+	if n >= 6 {
+		b[0] = byte(n)
+		b[1] = tag
+		b[2], b[3], b[4], b[5] = byte(i>>24), byte(i>>16), byte(i>>8), byte(i)
+		for k := 6; k < n; k++ {
+			b[k] = byte(h.u64())
+		}
+	} else {
+		for k := range b {
+			b[k] = byte(h.u64())
+		}
 	}
 	return b
 }
 
 func describe(c []byte) string {
-	if len(c) >= 6 && int(c[0]) == len(c) && (c[1] == 'P' || c[1] == 'R') {
+	if len(c) >= 6 && int(c[0]) == len(c)&0xff && (c[1] == 'P' || c[1] == 'R') {
 		return fmt.Sprintf("%c#%d", c[1], int(c[2])<<24|int(c[3])<<16|int(c[4])<<8|int(c[5]))
 	}
 	s := hex.EncodeToString(c)
@@ -78,20 +99,6 @@ func describe(c []byte) string {
 		s = s[:40] + "…"
 	}
 	return "bytes:" + s
-}
-
-// splitChunks cuts a DequeueAll result at the length prefixes.
-func splitChunks(b []byte) ([][]byte, bool) {
-	var out [][]byte
-	for len(b) > 0 {
-		n := int(b[0])
-		if n < 6 || n > len(b) {
-			return out, false
-		}
-		out = append(out, b[:n])
-		b = b[n:]
-	}
-	return out, true
 }
 
 type run struct {
@@ -171,16 +178,18 @@ func (r *run) consumer(wg *sync.WaitGroup) {
 		exp := Chunk(cfg.Seed, next, 'P')
 		if !bytes.Equal(c, exp) {
 			sig := "conc-corrupt"
-			if len(c) >= 6 && int(c[0]) == len(c) && c[1] == 'P' {
-				got := int(c[2])<<24 | int(c[3])<<16 | int(c[4])<<8 | int(c[5])
-				switch {
-				case got < next:
-					sig = "conc-duplicate-or-reorder"
-				case got > next:
-					sig = "conc-lost-or-reorder"
+			for j := next - 64; j <= next+64; j++ {
+				if j >= 0 && j != next && bytes.Equal(c, Chunk(cfg.Seed, j, 'P')) {
+					if j < next {
+						sig = "conc-duplicate-or-reorder"
+					} else {
+						sig = "conc-lost-or-reorder"
+					}
+					r.fail(sig, "%s returned produced chunk P#%d (%s), expected produced chunk P#%d", op, j, describe(c), next)
+					return false
 				}
 			}
-			r.fail(sig, "%s returned %s, expected produced chunk P#%d", op, describe(c), next)
+			r.fail(sig, "%s returned %s, expected produced chunk P#%d (%s)", op, describe(c), next, describe(exp))
 			return false
 		}
 		next++
@@ -239,10 +248,33 @@ func (r *run) consumer(wg *sync.WaitGroup) {
 				r.fail("conc-model-mismatch:dequeueall-passed-depth-test-on-empty-slice", "DequeueAll returned a non-nil empty slice: the unlocked depth test saw a non-zero depth while no chunk was held")
 				return
 			}
-			cs, ok := splitChunks(b)
-			if !ok {
-				r.fail("conc-corrupt", "DequeueAll returned bytes that are not a sequence of whole chunks: %s", describe(b))
-				return
+			// cut the result along the chunks the reader expects next (put-backs, top first, then
+			// the produced sequence); every expected chunk is non-empty, so the cut is unique
+			before := next
+			var cs [][]byte
+			for rest := b; len(rest) > 0; {
+				var exp []byte
+				if len(stack) > 0 {
+					exp = stack[len(stack)-1]
+				} else {
+					exp = Chunk(cfg.Seed, next, 'P')
+				}
+				if len(rest) < len(exp) {
+					if bytes.Equal(rest, exp[:len(rest)]) {
+						r.fail("conc-corrupt", "DequeueAll returned bytes that end in the middle of a chunk: %d of the %d bytes of %s", len(rest), len(exp), describe(exp))
+						return
+					}
+					exp = exp[:0] // let take classify what is there instead
+				}
+				n := len(exp)
+				if n == 0 {
+					n = len(rest)
+				}
+				if !take(rest[:n], "DequeueAll") {
+					return
+				}
+				cs = append(cs, rest[:n])
+				rest = rest[n:]
 			}
 			if cfg.Record {
 				parts := make([]string, len(cs))
@@ -250,12 +282,6 @@ func (r *run) consumer(wg *sync.WaitGroup) {
 					parts[i] = hexOrDash(c)
 				}
 				rets = append(rets, "A"+strings.Join(parts, "+"))
-			}
-			before := next
-			for _, c := range cs {
-				if !take(c, "DequeueAll") {
-					return
-				}
 			}
 			if len(stack) > 0 {
 				r.fail("conc-lost-or-reorder", "DequeueAll left %d put-back chunk(s) behind", len(stack))
@@ -306,6 +332,7 @@ func (r *run) consumer(wg *sync.WaitGroup) {
 	r.rep.Calls = calls
 	r.rep.Taken = next
 	r.rep.Putbacks = putbacks
+	r.rep.StackLeft = len(stack)
 	r.rep.Rets = rets
 	for i := len(stack) - 1; i >= 0; i-- {
 		r.rep.RestWant = append(r.rep.RestWant, stack[i]...)
@@ -338,9 +365,30 @@ func Run(cfg Config) Report {
 	go r.consumer(&wg)
 	done := make(chan struct{})
 	go func() { wg.Wait(); close(done) }()
-	select {
-	case <-done:
-	case <-time.After(cfg.Timeout):
+	finished := false
+	limit := time.After(cfg.Timeout)
+	var failedAt time.Time
+wait:
+	for {
+		select {
+		case <-done:
+			finished = true
+			break wait
+		case <-limit:
+			break wait
+		case <-time.After(50 * time.Millisecond):
+			// once one side has reported a violation the other may be stuck behind it (a panic with
+			// the lock held): do not wait for the watchdog then
+			if r.stop.Load() {
+				if failedAt.IsZero() {
+					failedAt = time.Now()
+				} else if time.Since(failedAt) > 2*time.Second {
+					break wait
+				}
+			}
+		}
+	}
+	if !finished {
 		r.fail("conc-deadlock", "no completion within %v: Enqueue calls started %d, returned %d; consumer's last call: %v", cfg.Timeout, r.started.Load(), r.returned.Load(), r.lastOp.Load())
 		r.mu.Lock()
 		rep := r.rep
@@ -359,14 +407,13 @@ func Run(cfg Config) Report {
 					rep.Violation, rep.Detail = "conc-panic", fmt.Sprintf("final calls panicked: %v", p)
 				}
 			}()
-			held := 0
+			held := rep.StackLeft
 			for i := rep.Taken; i < cfg.Chunks; i++ {
 				rep.RestWant = append(rep.RestWant, Chunk(cfg.Seed, i, 'P')...)
 				held++
 			}
-			cs, _ := splitChunks(rep.RestWant)
-			if d := r.q.GetDepth(); d != len(cs) {
-				rep.Violation, rep.Detail = "conc-depth", fmt.Sprintf("after both goroutines finished GetDepth is %d, %d chunk(s) are held", d, len(cs))
+			if d := r.q.GetDepth(); d != held {
+				rep.Violation, rep.Detail = "conc-depth", fmt.Sprintf("after both goroutines finished GetDepth is %d, %d chunk(s) are held", d, held)
 				return
 			}
 			rest := r.q.DequeueAll()
